@@ -17,7 +17,11 @@ EXPLANATION = (
     "yields the root (decided in C10, re-checked here). R03.7 axis -> reference: in every render method an attribute on the "
     "x axis resolves percentages against width, one on the y axis against height, and the width/height locals come from the "
     "caller's width/height (falling back to relative_length). R03.8 dispatch: every tag of the shape tuple has a constructor "
-    "branch of the matching class. Not decided: the geometry of generated documents; reify=True vs reify=False equality."
+    "branch of the matching class. "
+    "R03.9: a nested svg's x/y are applied as a translate also without a viewBox. R03.10: the viewport width/height rebound by a "
+    "nested svg are saved on the element stack and restored on every pop, so percentages after the nested svg refer to the outer "
+    "viewport again. "
+    "Not decided: the geometry of generated documents; reify=True vs reify=False equality."
 )
 ASSUMPTIONS = [
     "SVG 1.1 property index: fill, stroke, stroke-width, opacity properties, color, font properties, display (as subtree suppression) may propagate; transform is accumulated on purpose.",
